@@ -271,9 +271,11 @@ struct V : RecursiveASTVisitor<V> {
   bool VisitLambdaExpr(LambdaExpr *L) { if (auto *M = L->getCallOperator()) if (!M->isDependentContext()) VisitFunctionDecl(M); return true; }
   bool VisitCXXRecordDecl(CXXRecordDecl *RD) {
     if (!RD->isThisDeclarationADefinition() || RD->isDependentContext() || RD->isLambda()) return true;
-    if (!X.underRoot(RD->getLocation())) return true;
+    SourceLocation RL = RD->getLocation();
+    if (auto *CS = dyn_cast<ClassTemplateSpecializationDecl>(RD)) RL = CS->getSpecializedTemplate()->getLocation();  // explicit instantiations are located at the instantiation statement
+    if (!X.underRoot(RL)) return true;
     if (!seenR.insert(RD).second) return true;
-    json::Object ro; ro["name"] = X.ty(X.C.getRecordType(RD)); ro["loc"] = X.loc(RD->getLocation()); ro["id"] = X.did(RD); ro["union"] = RD->isUnion(); ro["hasptr"] = X.hasPtr(X.C.getRecordType(RD));
+    json::Object ro; ro["name"] = X.ty(X.C.getRecordType(RD)); ro["loc"] = X.loc(RL); ro["id"] = X.did(RD); ro["union"] = RD->isUnion(); ro["hasptr"] = X.hasPtr(X.C.getRecordType(RD));
     json::Array fs; for (auto *F : RD->fields()) { json::Object f; f["name"] = F->getNameAsString(); f["did"] = X.did(F); X.tyInfo(f, F->getType()); f["access"] = (int64_t)F->getAccess(); f["mutable"] = F->isMutable(); f["const"] = F->getType().isConstQualified(); fs.push_back(std::move(f)); } ro["fields"] = std::move(fs);
     json::Array bs; for (auto &B : RD->bases()) bs.push_back(X.ty(B.getType())); ro["bases"] = std::move(bs);
     json::Array ms; for (auto *D : RD->decls()) { FunctionDecl *M = dyn_cast<FunctionDecl>(D); if (auto *FT = dyn_cast<FunctionTemplateDecl>(D)) M = FT->getTemplatedDecl(); if (!M || !isa<CXXMethodDecl>(M)) continue; auto *MD = cast<CXXMethodDecl>(M); json::Object m; m["name"] = MD->getNameAsString(); m["id"] = X.did(MD); m["access"] = (int64_t)MD->getAccess(); m["deleted"] = MD->isDeleted(); m["defaulted"] = MD->isDefaulted(); m["implicit"] = MD->isImplicit(); m["const"] = MD->isConst(); m["static"] = MD->isStatic(); m["template"] = isa<FunctionTemplateDecl>(D);
